@@ -122,6 +122,47 @@ func init() {
 		ifc := a[0].(Iface)
 		return Iface{T: e.bodyType(), V: ifc.V}
 	})
+	regVerif("SetQuery", func(e *Engine, fn *ssa.Function, a []Value, s ssa.Instruction) Value {
+		r := e.deref(a[0], s)
+		e.side["query"] = a[1]
+		_ = r
+		return nil
+	})
+	reg("(*net/url.URL).Query", func(e *Engine, fn *ssa.Function, a []Value, s ssa.Instruction) Value {
+		if q, ok := e.side["query"]; ok {
+			return q
+		}
+		return &Map{}
+	})
+	regVerif("AtoiRef", func(e *Engine, fn *ssa.Function, a []Value, s ssa.Instruction) Value {
+		res := e.parseIntModel(T(a[0]), 64, true, "AtoiRef").(Tuple)
+		return Tuple{res[0], mkBool(res[1].(Iface).T == nil)}
+	})
+	// sync.Once (sequential model): the function runs at the first Do of this Once
+	reg("(*sync.Once).Do", func(e *Engine, fn *ssa.Function, a []Value, s ssa.Instruction) Value {
+		cell := e.deref(a[0], s)
+		done, _ := e.side["once"].(map[*Value]bool)
+		if done == nil {
+			done = map[*Value]bool{}
+			e.side["once"] = done
+		}
+		if !done[cell] {
+			done[cell] = true
+			e.call(a[1], nil, s)
+		}
+		return nil
+	})
+	noopv := func(e *Engine, fn *ssa.Function, a []Value, s ssa.Instruction) Value { return nil }
+	for _, m := range []string{"(*sync.Mutex).Lock", "(*sync.Mutex).Unlock", "(*sync.RWMutex).Lock", "(*sync.RWMutex).Unlock", "(*sync.RWMutex).RLock", "(*sync.RWMutex).RUnlock"} {
+		reg(m, noopv)
+	}
+	// context.WithValue: the real body inspects the key through reflection
+	reg("context.WithValue", func(e *Engine, fn *ssa.Function, a []Value, s ssa.Instruction) Value {
+		t := e.namedType("context", "valueCtx")
+		c := new(Value)
+		*c = Struct{a[0], a[1], a[2]}
+		return Iface{T: types.NewPointer(t), V: Ptr{P: c}}
+	})
 	regVerif("BodyReads", func(e *Engine, fn *ssa.Function, a []Value, s ssa.Instruction) Value {
 		n, _ := e.side["bodyreads"].(int)
 		return mkBV(64, uint64(n))
